@@ -47,13 +47,14 @@ VARIABLES
     result,   \* result of the command (phase "ret")
     inited,   \* set of models whose init completed
     terminated,
+    panicked, \* name of a model whose handler panicked during the current run ("" if none)
     \* ghost
     vc,       \* vc[t]: vector clock of task t
     seen,     \* seen[m]: set of stamps of messages m has started processing
     handled,  \* bag of handler invocations: sequence of [model, prog, kind] in start order
     sent      \* bag of accepted sends to models: sequence of [model, prog, kind] in send order
 
-vars == <<phase, cmd, q, ms, sinkLog, result, inited, terminated, vc, seen, handled, sent>>
+vars == <<phase, cmd, q, ms, sinkLog, result, inited, terminated, panicked, vc, seen, handled, sent>>
 
 IdleTask == [st |-> "idle", prog |-> 0, pc |-> 0, n |-> 0, subs |-> <<>>, cur |-> [none |-> TRUE], opkind |-> "nop"]
 NoCmd    == [name |-> "none"]
@@ -76,6 +77,7 @@ Init ==
     /\ result = ROk
     /\ inited = {}
     /\ terminated = FALSE
+    /\ panicked = ""
     /\ vc = [t \in Tasks |-> ZeroVC]
     /\ seen = [m \in Models |-> {}]
     /\ handled = <<>>
@@ -90,7 +92,7 @@ DInit ==
     /\ \A m \in Models : ms[m].st = "uninit"
     /\ phase' = "run"
     /\ cmd' = [name |-> "init"]
-    /\ UNCHANGED <<q, ms, sinkLog, result, inited, terminated, vc, seen, handled, sent>>
+    /\ UNCHANGED <<q, ms, sinkLog, result, inited, terminated, panicked, vc, seen, handled, sent>>
 
 (* A sub-send: one message on its way to one recipient. *)
 (* radd: what the connection's reply_map adds to the reply (queries through map / filter_map). *)
@@ -119,7 +121,7 @@ DProcess(kind, tgt, prog) ==
                                              !.opkind = IF kind = "query" THEN "query" ELSE "send",
                                              !.subs = <<Sub(tgt, [s |-> "drv", n |-> n1, c |-> 0], prog,
                                                             IF kind = "query" THEN "qry" ELSE "ev", v1, 0)>>]]
-    /\ UNCHANGED <<q, sinkLog, inited, terminated, seen, handled>>
+    /\ UNCHANGED <<q, sinkLog, inited, terminated, panicked, seen, handled>>
 
 -----------------------------------------------------------------------------
 (* Model tasks *)
@@ -130,7 +132,7 @@ InitBegin(m) ==
     /\ ms' = [ms EXCEPT ![m] = [@ EXCEPT !.st = "handler", !.prog = InitProg[m], !.pc = 1,
                                          !.cur = [init |-> TRUE]]]
     /\ vc' = [vc EXCEPT ![m][m] = @ + 1]
-    /\ UNCHANGED <<phase, cmd, q, sinkLog, result, inited, terminated, seen, handled, sent>>
+    /\ UNCHANGED <<phase, cmd, q, sinkLog, result, inited, terminated, panicked, seen, handled, sent>>
 
 ProgLen(p) == IF p = 0 THEN 0 ELSE Len(Prog[p])
 
@@ -140,7 +142,7 @@ Pop(m) ==
     /\ q' = [q EXCEPT ![m] = Tail(@)]
     /\ ms' = [ms EXCEPT ![m] = [@ EXCEPT !.st = "taken", !.cur = Head(q[m])]]
     /\ seen' = [seen EXCEPT ![m] = @ \cup {Head(q[m]).stamp}]
-    /\ UNCHANGED <<phase, cmd, sinkLog, result, inited, terminated, vc, handled, sent>>
+    /\ UNCHANGED <<phase, cmd, sinkLog, result, inited, terminated, panicked, vc, handled, sent>>
 
 (* The handler of the message taken starts. *)
 HB(m) ==
@@ -149,7 +151,7 @@ HB(m) ==
        /\ ms' = [ms EXCEPT ![m] = [@ EXCEPT !.st = "handler", !.prog = msg.prog, !.pc = 1]]
        /\ vc' = [vc EXCEPT ![m] = [VMax(@, msg.stamp) EXCEPT ![m] = @ + 1]]
        /\ handled' = Append(handled, [model |-> m, prog |-> msg.prog, kind |-> msg.kind])
-    /\ UNCHANGED <<phase, cmd, q, sinkLog, result, inited, terminated, seen, sent>>
+    /\ UNCHANGED <<phase, cmd, q, sinkLog, result, inited, terminated, panicked, seen, sent>>
 
 InHandler(m) == ms[m].st = "handler"
 AtOp(m) == InHandler(m) /\ ms[m].pc <= ProgLen(ms[m].prog)
@@ -166,6 +168,11 @@ OpStart(m) ==
            v1 == [vc[m] EXCEPT ![m] = @ + 1]
        IN  IF op.op = "nop"
            THEN /\ ms' = [ms EXCEPT ![m].pc = @ + 1]
+                /\ UNCHANGED <<vc, sent, panicked>>
+           ELSE IF op.op = "panic"
+           THEN \* the handler panics: the model is gone and the run will be aborted
+                /\ ms' = [ms EXCEPT ![m].st = "dead"]
+                /\ panicked' = m
                 /\ UNCHANGED <<vc, sent>>
            ELSE LET conns == Ports[m][op.port]
                     acc   == SelectSeq([i \in 1..Len(conns) |-> [i |-> i, c |-> conns[i]]],
@@ -182,6 +189,7 @@ OpStart(m) ==
                     /\ sent' = sent \o [k \in 1..Len(toModels) |->
                                            [model |-> toModels[k].tgt, prog |-> toModels[k].msg.prog,
                                             kind |-> toModels[k].msg.kind]]
+                    /\ UNCHANGED panicked
     /\ UNCHANGED <<phase, cmd, q, sinkLog, result, inited, terminated, seen, handled>>
 
 IsSink(tgt) == \E s \in Sinks : tgt = "sink:" \o s
@@ -200,7 +208,7 @@ Push(t, i) ==
                /\ q' = [q EXCEPT ![sb.tgt] = Append(@, sb.msg)]
                /\ UNCHANGED sinkLog
                /\ ms' = [ms EXCEPT ![t].subs[i].st = IF sb.msg.kind = "qry" THEN "pushed" ELSE "done"]
-    /\ UNCHANGED <<phase, cmd, result, inited, terminated, vc, seen, handled, sent>>
+    /\ UNCHANGED <<phase, cmd, result, inited, terminated, panicked, vc, seen, handled, sent>>
 
 (* Value replied by replier m to a request carrying program p received through connection c. *)
 ReplyValue(m, p) == 1000 * (CHOOSE i \in 1..Len(ModelSeq) : ModelSeq[i] = m) + p
@@ -213,7 +221,7 @@ OpDone(t) ==
     /\ IF t = "drv"
        THEN ms' = [ms EXCEPT ![t].st = "finished"]
        ELSE ms' = [ms EXCEPT ![t] = [@ EXCEPT !.st = "handler", !.pc = @ + 1]]
-    /\ UNCHANGED <<phase, cmd, q, sinkLog, result, inited, terminated, vc, seen, handled, sent>>
+    /\ UNCHANGED <<phase, cmd, q, sinkLog, result, inited, terminated, panicked, vc, seen, handled, sent>>
 
 (* Replies collected by a completed query, in connection order. *)
 Replies(t) == [i \in 1..Len(ms[t].subs) |-> ms[t].subs[i].reply]
@@ -246,7 +254,7 @@ HE(m) ==
                                             !.reply = ReplyValue(m, cur.prog) + ms[t].subs[i].radd]
                                    ELSE ms[t].subs[i]]]
                        ELSE ms[t]]
-    /\ UNCHANGED <<phase, cmd, q, sinkLog, result, terminated, vc, seen, handled, sent>>
+    /\ UNCHANGED <<phase, cmd, q, sinkLog, result, terminated, panicked, vc, seen, handled, sent>>
 
 -----------------------------------------------------------------------------
 (* End of the run *)
@@ -274,19 +282,28 @@ DeadlockList ==
               LAMBDA e : e.n > 0)
 
 (* Executor::run returns: nothing can run any more. *)
+(* Executor::run returns early because a model panicked (other handlers may still be making progress). *)
+AbortPanic ==
+    /\ phase = "run" /\ panicked # ""
+    /\ result' = Res("panic", panicked, 0, <<>>)
+    /\ terminated' = TRUE
+    /\ phase' = "ret"
+    /\ UNCHANGED <<cmd, q, ms, sinkLog, inited, panicked, vc, seen, handled, sent>>
+
 Quiesce ==
-    /\ phase = "run" /\ NothingEnabled
+    /\ phase = "run" /\ NothingEnabled /\ panicked = ""
     /\ result' = IF AllQueuesEmpty THEN ROk
                  ELSE IF DeadlockList # <<>> THEN Res("deadlock", "", 0, DeadlockList)
                  ELSE Res("msgloss", "", Len(q["ORPHAN"]), <<>>)
     /\ terminated' = ~AllQueuesEmpty
     /\ phase' = "ret"
-    /\ UNCHANGED <<cmd, q, ms, sinkLog, inited, vc, seen, handled, sent>>
+    /\ UNCHANGED <<cmd, q, ms, sinkLog, inited, panicked, vc, seen, handled, sent>>
 
 DReturn ==
     /\ phase = "ret"
     /\ phase' = "idle"
     /\ cmd' = NoCmd
+    /\ panicked' = ""
     /\ ms' = [ms EXCEPT !["drv"] = [IdleTask EXCEPT !.n = ms["drv"].n]]
     /\ UNCHANGED <<q, sinkLog, result, inited, terminated, vc, seen, handled, sent>>
 
@@ -309,7 +326,7 @@ CausalDelivery ==
     \A m \in Models : \A y \in seen[m] : \A x \in PendingFor(m) : ~VLess(x, y)
 
 (* C04: when the executor finds nothing to run and no message is left, no computation is half-way. *)
-QuiescentMeansDone == (phase = "run" /\ NothingEnabled /\ AllQueuesEmpty) => AllIdle
+QuiescentMeansDone == (phase = "run" /\ NothingEnabled /\ AllQueuesEmpty /\ panicked = "") => AllIdle
 
 (* C03: when a run completes, what was processed is exactly what was sent (to models), as multisets. *)
 BagOf(seqn) == [x \in {seqn[i] : i \in 1..Len(seqn)} |-> Cardinality({i \in 1..Len(seqn) : seqn[i] = x})]
